@@ -171,7 +171,12 @@ def one_history(ctx, cid, rng):
                     P = gen.gen_pixels(rng, n, True, "sparse70") or {(0, 0): 1}
                     P = {k: v + step for k, v in P.items()}
                     u = uri(rng, f, p, c)
-                    make_cooler(u, bt, P, mode=mode)
+                    bt_k = [[f"{nm}.{step}", e] for nm, e in bt] if rng.random() < 0.5 else bt   # own chromosome names
+                    make_cooler(u, bt_k, P, mode=mode)
+                    if rng.random() < 0.3:
+                        from .c14 import to_int_encoding
+                        to_int_encoding(f, p)          # chromosome ids stored as plain integers (many-contig layout)
+                        c.feature("encoding:int")
                     if mode == "w":
                         M.names[f] = {}
                         M.foreign[f] = False
@@ -189,7 +194,7 @@ def one_history(ctx, cid, rng):
                         continue
                     sf, sp = srcs[int(rng.integers(len(srcs)))]
                     if op == "cp_occupied":
-                        cands = [(ff, p) for ff, p in live if (ff, p) != (sf, sp) and p != "/"]
+                        cands = [(ff, p) for ff, p in live if (ff, p) != (sf, sp) and (p != "/" or ff != sf)]
                         if not cands:
                             continue
                         df_, dp = cands[int(rng.integers(len(cands)))]
@@ -224,7 +229,7 @@ def one_history(ctx, cid, rng):
                     except Exception as e:  # noqa
                         raised = type(e).__name__
                     if op == "cp_occupied":
-                        c.feature("op:cp-onto-occupied")
+                        c.feature("op:cp-onto-occupied" + (":root-of-other-file" if dp == "/" else ""))
                         rec["raised"] = raised
                         if raised is None:
                             # an implementation may also replace the destination: then it must read as the source
@@ -394,6 +399,22 @@ def verify(c, M, files, fileops, runner, cli, rng, hist):
                 c.check(len(a) == 1, "hard-links-do-not-share-object", "names of one object resolve to different HDF5 objects")
             alla = [next(iter(a)) for a in addr.values() if len(a) == 1]
             c.check(len(set(alla)) == len(alla), "copies-share-object", "a copy shares its HDF5 object with its source")
+        for p in want:
+            if rng.random() < 0.5:
+                # the ordinary interface reads the collection's own tables, wherever it sits
+                import cooler
+                with h5py.File(f, "r") as h:
+                    nm_ = [x.decode() for x in h[p]["chroms/name"][:]]
+                    lab = [nm_[i] for i in h[p]["bins/chrom"][:]]
+                    npx = int(h[p]["pixels/count"].shape[0])
+                clr = cooler.Cooler(f + "::" + p)
+                got_lab = clr.bins()[:]["chrom"].astype(str).tolist()
+                pj = clr.pixels(join=True)[:]
+                ok &= c.check(got_lab == lab and clr.chromnames == nm_ and len(pj) == npx
+                              and (npx == 0 or pj["chrom1"].astype(str).iloc[0] in nm_),
+                              f"api-read-differs:bin-chromosome-labels:{M.names[f][p][0]}",
+                              f"Cooler({os.path.basename(f)}::{p}).bins() carries chromosome labels {got_lab[:4]}..., the "
+                              f"collection's own tables say {lab[:4]}...", {"history": hist})
         for p in want:
             r = fileops.is_cooler(f + "::" + p)
             ok &= c.check(r is True, "is_cooler-false-for-collection", f"is_cooler({os.path.basename(f)}::{p}) = {r}")
